@@ -1,0 +1,22 @@
+//go:build verif
+
+// Contracts for package gen, read by the verification-condition generator in /verif/govc.
+// This file contains comments only; it is compiled only with -tags verif and adds no code.
+
+package gen
+
+/*@
+// gen man / gen markdown: the generated text is written straight to the standard output; a failed write is returned
+// (C17: success means the sink lost nothing)
+func newGenCommand$1$1 returns (err)
+  props C17 C08
+  refines utils.OptionsCb
+  modifies ghost(bufSticky, sinkFailed, sinkPend, prLen, prSink, prArg, prArgs)
+  ensures @reports-loss [C17] err == nil ==> sinkFailed[payload(o.ReporterConfig.Output)] == old(sinkFailed[payload(o.ReporterConfig.Output)])
+
+func newGenCommand$2$1 returns (err)
+  props C17 C08
+  refines utils.OptionsCb
+  modifies ghost(bufSticky, sinkFailed, sinkPend, prLen, prSink, prArg, prArgs)
+  ensures @reports-loss [C17] err == nil ==> sinkFailed[payload(o.ReporterConfig.Output)] == old(sinkFailed[payload(o.ReporterConfig.Output)])
+@*/
